@@ -77,3 +77,55 @@ def decode_row(batch, j, discrete=False):
     ok &= float(nobs[0]) == k + 1000 and float(nobs[1]) == k
     ok &= bool(np.asarray(batch.termination)[j]) == bool(k % 2)
     return k, bool(ok)
+
+
+# ---- scripted recording environments --------------------------------------------
+import gymnasium as gym  # noqa: E402
+
+
+class StepAfterDone(RuntimeError):
+    pass
+
+
+class TabularEnv(gym.Env):
+    """Deterministic-by-seed discrete environment with stochastic successors, scripted
+    episode lengths / end kinds and dyadic rewards. Logs every reset / step; raises when
+    stepped after an episode ended without reset."""
+
+    def __init__(self, ns, na, script, seed=0):
+        self.observation_space = gym.spaces.Discrete(ns)
+        self.action_space = gym.spaces.Discrete(na)
+        self.ns, self.na = ns, na
+        self.script = list(script)      # [(length, "term"|"trunc"), ...] cycled
+        self._rng = np.random.default_rng(seed)
+        self.log = []
+        self.ep = -1
+        self.t = 0
+        self.s = 0
+        self.done = True
+        self.total_steps = 0
+
+    def reset(self, *, seed=None, options=None):
+        self.ep += 1
+        self.t = 0
+        self.s = int((self.ep * 2) % self.ns)
+        self.done = False
+        self.log.append(("reset", self.s))
+        return self.s, {}
+
+    def step(self, action):
+        if self.done:
+            raise StepAfterDone("step() on a finished episode without reset()")
+        a = int(action)
+        assert 0 <= a < self.na
+        s2 = int((self.s + a + int(self._rng.integers(0, 2))) % self.ns)   # two possible successors
+        r = float(((self.s * 3 + a * 5 + self.t) % 9 - 4) / 4.0)
+        self.t += 1
+        self.total_steps += 1
+        L, kind = self.script[self.ep % len(self.script)]
+        term = self.t >= L and kind == "term"
+        trunc = self.t >= L and kind == "trunc"
+        self.log.append(("step", self.s, a, r, s2, term, trunc))
+        self.s = s2
+        self.done = term or trunc
+        return s2, r, term, trunc, {"episode": {"r": 0.0}}
